@@ -380,6 +380,67 @@ func c29Targeted() []targeted {
 			}
 		}
 	})
+	add("Subscription that times out (no publish requests, lifetime count 3, 5 ms) while another client keeps writing the monitored node", func(e *c29Env, cs c29Case) {
+		for round := 0; round < 4; round++ {
+			id := sub(e, cs, 5, 3, 1)
+			e.send(cs, &ua.CreateMonitoredItemsRequest{SubscriptionID: id, ItemsToCreate: []*ua.MonitoredItemCreateRequest{item(e.ns, "v3")}}, e.atkTok, 2*time.Second)
+		}
+		w, wt, err := refpeer.OpenSession(e.addr, e.endpoint)
+		if err != nil {
+			return
+		}
+		defer w.Close()
+		for i := 0; i < 600; i++ {
+			if _, err := w.Request(&ua.WriteRequest{NodesToWrite: []*ua.WriteValue{{NodeID: ua.NewStringNodeID(e.ns, "v3"), AttributeID: ua.AttributeIDValue, Value: &ua.DataValue{EncodingMask: 1, Value: ua.MustVariant(int64(i))}}}}, wt, 2*time.Second); err != nil {
+				break
+			}
+		}
+	})
+	add("Subscriber that keeps publish requests queued but never reads the 60 kB notifications, while another client keeps writing the monitored node", func(e *c29Env, cs c29Case) {
+		id := sub(e, cs, 2, 1000, 5)
+		e.send(cs, &ua.CreateMonitoredItemsRequest{SubscriptionID: id, ItemsToCreate: []*ua.MonitoredItemCreateRequest{item(e.ns, "v3")}}, e.atkTok, 2*time.Second)
+		if e.atk != nil {
+			e.atk.Conn.SetWriteDeadline(time.Now().Add(3 * time.Second))
+			for i := 0; i < 400; i++ {
+				if _, err := e.atk.SendRequest(&ua.PublishRequest{SubscriptionAcknowledgements: []*ua.SubscriptionAcknowledgement{}}, e.atkTok, refpeer.SendOpts{}); err != nil {
+					break
+				}
+			}
+		}
+		w, wt, err := refpeer.OpenSession(e.addr, e.endpoint)
+		if err != nil {
+			return
+		}
+		defer w.Close()
+		big := make([]byte, 60000)
+		for i := 0; i < 500; i++ {
+			big[0] = byte(i)
+			if _, err := w.Request(&ua.WriteRequest{NodesToWrite: []*ua.WriteValue{{NodeID: ua.NewStringNodeID(e.ns, "v3"), AttributeID: ua.AttributeIDValue, Value: &ua.DataValue{EncodingMask: 1, Value: ua.MustVariant(big)}}}}, wt, 8*time.Second); err != nil {
+				break
+			}
+		}
+	})
+	add("DeleteSubscriptions immediately followed by CreateMonitoredItems, pipelined, 300 times", func(e *c29Env, cs c29Case) {
+		for k := 0; k < 300 && e.atk != nil; k++ {
+			id := sub(e, cs, 50, 100, 10)
+			id2 := sub(e, cs, 50, 100, 10)
+			if id == 0 || id2 == 0 {
+				return
+			}
+			r1, err1 := e.atk.SendRequest(&ua.DeleteSubscriptionsRequest{SubscriptionIDs: []uint32{id}}, e.atkTok, refpeer.SendOpts{})
+			r2, err2 := e.atk.SendRequest(&ua.CreateMonitoredItemsRequest{SubscriptionID: id2, ItemsToCreate: []*ua.MonitoredItemCreateRequest{item(e.ns, "v1")}}, e.atkTok, refpeer.SendOpts{})
+			if err1 != nil || err2 != nil {
+				return
+			}
+			if _, err := e.atk.Await(r1, 2*time.Second); err != nil {
+				return
+			}
+			if _, err := e.atk.Await(r2, 2*time.Second); err != nil {
+				return
+			}
+			e.atk.Request(&ua.DeleteSubscriptionsRequest{SubscriptionIDs: []uint32{id2}}, e.atkTok, 2*time.Second)
+		}
+	})
 	add("Client that requests large responses and never reads them", func(e *c29Env, cs c29Case) {
 		rv := make([]*ua.ReadValueID, 3000)
 		for i := range rv {
